@@ -157,15 +157,20 @@ func ParseLog(out string) []LogBlock {
 			i += 3
 			// blank line then "\t<message>" possibly spanning lines until the next block
 			var msg []string
+			next := false
 			for i < len(lines) {
 				if strings.HasPrefix(lines[i], "commit ") && gitfmt.IsHex40(strings.TrimPrefix(lines[i], "commit ")) &&
 					i+2 < len(lines) && strings.HasPrefix(lines[i+1], "Author: ") {
+					next = true
 					break
 				}
 				msg = append(msg, lines[i])
 				i++
 			}
 			m := strings.Join(msg, "\n")
+			if next {
+				m += "\n" // the line feed in front of the next block's first line (the split consumed it)
+			}
 			m = strings.TrimPrefix(m, "\n")
 			m = strings.TrimPrefix(m, "\t")
 			// Goit prints "\n\t<msg>\n" then Println adds "\n": strip the two trailing newlines
@@ -285,6 +290,12 @@ func CleanArg(a string) (string, bool) {
 		return "", false
 	}
 	c := path.Clean(a)
+	// commands run in the directory "w" of their sandbox: "../w/x" leaves it and comes back, and names x
+	if c == "../w" {
+		c = "."
+	} else if strings.HasPrefix(c, "../w/") {
+		c = c[len("../w/"):]
+	}
 	if c == ".." || strings.HasPrefix(c, "../") {
 		return "", false
 	}
